@@ -6,6 +6,7 @@ import (
 	"regexp"
 	"strconv"
 	"strings"
+	"sync"
 	"unicode/utf8"
 
 	"github.com/expr-lang/expr"
@@ -27,6 +28,13 @@ type ExprCondition struct {
 	// preserved exactly.
 	fast     *fastCompare
 	compound *fastCompound
+
+	// expression/options allow compiling the NULL-tolerant variant lazily
+	// (see null_tolerant.go); used only when the normal program fails.
+	expression   string
+	options      []expr.Option
+	tolerantOnce sync.Once
+	tolerant     *vm.Program
 }
 
 func NewExprCondition(expression string) (Condition, error) {
@@ -65,7 +73,7 @@ func NewExprCondition(expression string) (Condition, error) {
 	if err != nil {
 		return nil, err
 	}
-	ec := &ExprCondition{program: program}
+	ec := &ExprCondition{program: program, expression: expression, options: options}
 	if fc := tryFastCompound(expression); fc != nil {
 		ec.compound = fc
 	} else if fc := tryFastCompare(expression); fc != nil {
@@ -86,7 +94,7 @@ func (ec *ExprCondition) Evaluate(env any) bool {
 	}
 	result, err := expr.Run(ec.program, env)
 	if err != nil {
-		return false
+		return ec.evaluateNullTolerant(env)
 	}
 	return result.(bool)
 }
